@@ -383,6 +383,17 @@ fn corpus(ctx: CtxK) -> Vec<Node> {
     v.push(Node::DupIf(Box::new(Node::AndV(Box::new(vpk(1)), Box::new(vpk(2))))));
     v.push(Node::NonZero(Box::new(Node::AndV(Box::new(vpk(1)), Box::new(pk(2))))));
     v.push(Node::Thresh(2, vec![pk(0), Node::Alt(Box::new(Node::AndV(Box::new(vpk(1)), Box::new(pk(2))))), spk(3)]));
+    // tree height at the recursion limit: `and_v(X,and_v(Y,Z))` with height(X) = 400 / 401.  The
+    // decoder returns the left-nested chain, which is one level higher; at 402 the round trip
+    // fails (known finding).  Only Taproot has no opcode limit that rejects the long n: chain.
+    if ctx == CtxK::Tap {
+        for depth in [398usize, 399] {
+            let mut x = pk(0);
+            for _ in 0..depth { x = Node::ZeroNotEqual(Box::new(x)); }
+            let x = Node::Verify(Box::new(x));
+            v.push(Node::AndV(Box::new(x), Box::new(Node::AndV(Box::new(vpk(1)), Box::new(pk(2))))));
+        }
+    }
     v
 }
 
